@@ -706,6 +706,10 @@ func mustPass(fn *ssa.Function, at ssa.Instruction, g Guard) (bool, string) {
 	if !r {
 		return true, ""
 	}
+	// the block is reachable; `at` itself may still lie behind a validate-or-die call in its block
+	if !reachInstrAvoiding(fn, at, g) {
+		return true, ""
+	}
 	return false, fmt.Sprintf("reachable without the guard via blocks %v", path)
 }
 
@@ -1104,19 +1108,60 @@ var callEstDepth int
 // reached without crossing an edge establishing g (validate-or-die helpers: the helper exits
 // or panics otherwise) — so g holds whenever control continues after the call.
 func callEstablishes(in ssa.Instruction, g Guard) bool {
+	if g == nil {
+		return false
+	}
+	return callPasses(in, nil, g)
+}
+
+// callPasses: in is a static call of a first-party helper in which every path from entry to a
+// return executes a marker instruction or crosses an edge establishing g (either may be nil).
+// While the helper is examined its parameters resolve to the call's arguments (rv).
+func callPasses(in ssa.Instruction, marker func(ssa.Instruction) bool, g Guard) bool {
 	call, ok := in.(*ssa.Call)
-	if !ok || g == nil || callEstDepth > 0 {
+	if !ok || (g == nil && marker == nil) || callEstDepth > 1 {
 		return false
 	}
 	callee := call.Call.StaticCallee()
 	if callee == nil || !IsFirstParty(callee) || callee.Blocks == nil || callee == in.Parent() {
 		return false
 	}
+	// assert-style helper (mustNot(cond, msg) / must(cond)): it returns only when its boolean
+	// parameter has one polarity; that polarity of the argument expression is then established
+	// for the caller, as by a branch on it
+	if g != nil {
+		for i, p := range callee.Params {
+			if bt, isB := p.Type().Underlying().(*types.Basic); !isB || bt.Kind() != types.Bool || i >= len(call.Call.Args) {
+				continue
+			}
+			for _, pol := range []bool{false, true} {
+				pg := GFalse(isValExact(p))
+				if pol {
+					pg = GTrue(isValExact(p))
+				}
+				only := len(returnsOf(callee)) > 0
+				callEstDepth += 2 // plain reachability inside the assert helper
+				for _, r := range returnsOf(callee) {
+					if reach, _ := reachAvoiding(callee, r.Block(), pg); reach {
+						only = false
+					}
+				}
+				callEstDepth -= 2
+				if only && valueEstablishes(call.Call.Args[i], pol, g, 0) {
+					return true
+				}
+			}
+		}
+	}
 	callEstDepth++
 	defer func() { callEstDepth-- }()
 	defer pushCallResolver(call, callee)()
 	for _, r := range returnsOf(callee) {
-		if reach, _ := reachAvoiding(callee, r.Block(), g); reach {
+		if marker != nil {
+			if reachFromWithoutMarkerAvoiding(callee.Blocks[0], r, marker, g) {
+				return false
+			}
+		} else if reachInstrAvoiding(callee, r, g) {
 			return false
 		}
 	}
@@ -1125,7 +1170,7 @@ func callEstablishes(in ssa.Instruction, g Guard) bool {
 
 // blockEstablishes: some call in b establishes g (see callEstablishes).
 func blockEstablishes(b *ssa.BasicBlock, g Guard) bool {
-	if g == nil || callEstDepth > 0 {
+	if g == nil || callEstDepth > 1 {
 		return false
 	}
 	for _, in := range b.Instrs {
@@ -1147,15 +1192,28 @@ func predEstablishes(cond ssa.Value, branch bool, g Guard, depth int) bool {
 		return false
 	}
 	core, neg := normCond(cond)
+	resIdx := 0
 	call, ok := core.(*ssa.Call)
 	if !ok {
-		return false
+		// the boolean result of a helper returning several values: v, ok := helper(...)
+		ex, isEx := core.(*ssa.Extract)
+		if !isEx {
+			return false
+		}
+		call, ok = ex.Tuple.(*ssa.Call)
+		if !ok {
+			return false
+		}
+		resIdx = ex.Index
 	}
 	callee := call.Call.StaticCallee()
 	if callee == nil || !IsFirstParty(callee) || callee.Blocks == nil {
 		return false
 	}
-	if b, ok := callee.Signature.Results().At(0).Type().Underlying().(*types.Basic); !ok || callee.Signature.Results().Len() != 1 || b.Kind() != types.Bool {
+	if resIdx >= callee.Signature.Results().Len() || (ok && callee.Signature.Results().Len() != 1 && core == ssa.Value(call)) {
+		return false
+	}
+	if b, ok := callee.Signature.Results().At(resIdx).Type().Underlying().(*types.Basic); !ok || b.Kind() != types.Bool {
 		return false
 	}
 	want := branch != neg
@@ -1177,7 +1235,7 @@ func predEstablishes(cond ssa.Value, branch bool, g Guard, depth int) bool {
 		return false
 	}
 	for _, r := range returnsOf(callee) {
-		v := r.Results[0]
+		v := unspill(r.Results[resIdx])
 		if bv, isC := constBool(v); isC {
 			if bv != want {
 				continue
@@ -1209,4 +1267,59 @@ func predEstablishes(cond ssa.Value, branch bool, g Guard, depth int) bool {
 		}
 	}
 	return true
+}
+
+// isValExact: the very value (no resolver, no unspilling).
+func isValExact(want ssa.Value) func(ssa.Value) bool {
+	return func(v ssa.Value) bool { return v == want }
+}
+
+// valueEstablishes: the boolean value v having the truth value `branch` establishes g — v is a
+// condition g recognises, a predicate helper, or the phi of a short-circuit expression each of
+// whose incoming edges consistent with `branch` was produced by an edge establishing g.
+func valueEstablishes(v ssa.Value, branch bool, g Guard, depth int) bool {
+	if depth > 4 || v == nil {
+		return false
+	}
+	if g(v, branch) || predEstablishes(v, branch, g, 0) {
+		return true
+	}
+	core, neg := normCond(v)
+	phi, ok := core.(*ssa.Phi)
+	if !ok {
+		return false
+	}
+	want := branch != neg
+	blk := phi.Block()
+	for i, e := range phi.Edges {
+		if bv, isC := constBool(e); isC && bv != want {
+			continue // this entry does not produce the value
+		}
+		pred := blk.Preds[i]
+		edgeOK := false
+		if n := len(pred.Instrs); n > 0 {
+			if ifi, isIf := pred.Instrs[n-1].(*ssa.If); isIf {
+				for si, succ := range pred.Succs {
+					if succ == blk && valueEstablishes(ifi.Cond, si == 0, g, depth+1) {
+						edgeOK = true
+					}
+				}
+			}
+		}
+		if edgeOK {
+			continue
+		}
+		if _, isC := constBool(e); !isC && valueEstablishes(e, want, g, depth+1) {
+			continue
+		}
+		return false
+	}
+	return true
+}
+
+func noMarker(ssa.Instruction) bool { return false }
+
+// reachInstrAvoiding: instruction-granular variant of reachAvoiding.
+func reachInstrAvoiding(fn *ssa.Function, at ssa.Instruction, g Guard) bool {
+	return reachFromWithoutMarkerAvoiding(fn.Blocks[0], at, noMarker, g)
 }
